@@ -9,12 +9,14 @@ from ..ref import basicreader as br
 
 ID = 'C18'
 RULE = ('Generated: models expressible in BASIC MININEC: straight wires plus tapered wires, arcs and helices (emulated '
-        'by one-segment wires), 1..3 sources with complex voltages, either impedance-type loads (lumped complex, '
+        'by one-segment wires), in a third of the cases with wire ends moved by 0.05e-3..0.4e-3 of the shortest segment so that '
+        'junctions hold within the matching tolerance only (numbering and positions compared, not impedances), 1..3 sources with complex voltages, either impedance-type loads (lumped complex, '
         'skin effect, insulation) or Laplace-type loads (series RLC, trap, Laplace), free space / ideal ground / 1..3 '
         'media with either boundary and radials, BASIC versions 9 / 12 / 13, optional dBi or V/m pattern section '
         '(power, distance) and near-field section (power).  Oracle: an independent reader consumes the text prompt '
         'by prompt (every answer of the right type, nothing left over); the description it yields equals the '
-        'model: frequency, environment and media, every (emulated) wire with end points, radius and segment count, '
+        'model: frequency, environment and media, every (emulated) wire with end points, radius and segment count, ends that the model joins written with '
+        'identical coordinates (BASIC joins on equality only), '
         'every source with pulse number, magnitude and phase in degrees, every load with pulse number and value / '
         'coefficients (micro-units for version 9), pattern and near-field requests; a model built from the read-back '
         'description through the API has the same pulses at the same positions and the same feed impedances.  '
@@ -24,7 +26,7 @@ BUDGET = {'quick': {'examples': 1200, 'wall': 200}, 'thorough': {'examples': 400
 ASSUMPTIONS = ['prompt order as documented in the comments of the writer and in the stored .mini files (reader self-test)',
                'numbers are written with six digits (%g): 1e-5 relative']
 LABEL_FLOORS = {'emulated': 0.25, 'multi-source': 0.4, 'laplace-loads': 0.1, 'impedance-loads': 0.15, 'env-real': 0.15,
-                'version!=9': 0.4, 'near-section': 0.2, 'vm-section': 0.1}
+                'version!=9': 0.4, 'near-section': 0.2, 'vm-section': 0.1, 'junction-within-tolerance': 0.15}
 
 
 class Args:
@@ -41,6 +43,9 @@ def case_strategy(draw, big=False):
                                 taper_prob=0.25))
     topo, objs = gen.stand_in_topology(case)
     npl = len(topo.pulses)
+    if draw(st.integers(0, 2)) == 0:
+        # BASIC joins wires by identical coordinates only: ends that the program joins within its tolerance
+        case['jittered'] = draw(gen.jitter_ends(case))
     lds = []
     fam = draw(st.sampled_from(['none', 'z', 'z', 's']))
     if fam == 'z':
@@ -85,6 +90,8 @@ def c5(a, b, rel=1.1e-5, ab=0.0):
 
 def check(case):
     labels = common.base_labels(case)
+    if case.get('jittered'):
+        labels.append('junction-within-tolerance')
     try:
         m = build.model(case)
     except build.Rejected as e:
@@ -162,6 +169,27 @@ def check(case):
             nt = True
             for i in range(len(o['segs']) - 1):
                 want.append((1, o['segs'][i], o['segs'][i + 1], rad))
+    first_last = []
+    k_ = 0
+    for o, g in zip(topo.objs, m.geo):
+        plain = o['obj']['type'] == 'wire' and (not o['obj'].get('taper') or not getattr(g, 'segtype', 0))
+        cnt = 1 if plain else len(o['segs']) - 1
+        first_last.append((k_, k_ + cnt - 1))
+        k_ += cnt
+    if len(d['wires']) == len(want):
+        # BASIC joins two wire ends only if the typed coordinates are identical
+        for (a_, b_) in first_last:
+            for i in range(a_, b_):
+                if d['wires'][i]['p2'] != d['wires'][i + 1]['p1']:
+                    fails.append(('wires:chain-not-identical', 'emulated wires %d and %d: %s / %s' % (i + 1, i + 2, d['wires'][i]['p2'], d['wires'][i + 1]['p1'])))
+                    break
+        for j in topo.junctions:
+            if len(j) < 2:
+                continue
+            pts_ = [tuple(d['wires'][first_last[w][0]]['p1'] if e == 0 else d['wires'][first_last[w][1]]['p2']) for (w, e) in j]
+            if len(set(pts_)) != 1:
+                fails.append(('wires:junction-not-identical', 'ends %s that the model joins are written as %s' % (j, sorted(set(pts_)))))
+                break
     if len(d['wires']) != len(want):
         fails.append(('wires:count', '%d wires written, %d expected' % (len(d['wires']), len(want))))
     else:
@@ -289,7 +317,11 @@ def check(case):
                 if dp > 1e-9 * span + 4 * topo.tol:
                     fails.append(('readback:pulse-positions', 'pulse positions differ by %.3g' % dp))
                 thick_ins = any(l['kind'] == 'ins' for l in case['loads']) and any(g.r > 1e-4 * 299.8 / f for g in m.geo)
-                if rules.check(case, check_seg=False) is None and not thick_ins and common.junction_ratio_violation(topo) is None:
+                # (joined ends are written with the coordinates of the end they were matched to: with ends that only meet
+                # within the tolerance the read-back geometry closes gaps of the order of a wire radius, to which the
+                # thin-wire kernel responds with delta/radius - numbering and positions are compared, impedances are not)
+                if (rules.check(case, check_seg=False) is None and not thick_ins and common.junction_ratio_violation(topo) is None
+                        and not case.get('jittered')):
                     m.compute()
                     mb.compute()
                     c = max(common.cond(m), common.cond(mb))
